@@ -61,6 +61,10 @@ Env ==
   \/ s.di.out = "idle" /\ s.st.out # "idle" /\ Use(TRUE) /\ s' = UserDisconnect(s) /\ H(<<"disconnect">>)
   \/ s.st.out # "idle" /\ Use(TRUE) /\ s' = UserForce(s) /\ H(<<"force">>)
   \/ ~s.wf /\ s.tr = "open" /\ Use(TRUE) /\ s' = SetWriteFail(s, TRUE) /\ H(<<"writefail", TRUE>>)
+  \/ Use(TRUE) /\ \E op \in {"start", "finish", "disconnect"} :
+        /\ (op = "start" /\ s.st.out = "pending" /\ s.st.wake # "Cancelled") \/ (op = "finish" /\ s.fi.out = "pending" /\ s.fi.wake # "Cancelled")
+           \/ (op = "disconnect" /\ s.di.out = "pending" /\ s.di.wake # "Cancelled")
+        /\ s' = UserCancel(s, op) /\ H(<<"cancel_op", op>>)
   \/ UseCalls /\ s.cs # "init" /\ Use(FALSE)
        /\ \E id \in UserCalls, mode \in {"single", "list", "filter"} :
             /\ s.cout[id] = "idle" /\ (id = "c1" \/ s.cout["c1"] # "idle")
@@ -81,6 +85,7 @@ Internal ==
      \/ DiscStepEnabled(s) /\ s' = DiscStep(s) /\ H(<<"i">>)
      \/ \E id \in UserCalls : CallStepEnabled(s, id) /\ s' = CallStep(s, id) /\ H(<<"i">>)
      \/ \E id \in CallIds : CallTimerFireEnabled(s, id) /\ s' = CallTimerFire(s, id) /\ H(<<"i">>)
+     \/ HsTimerFireEnabled(s) /\ s' = HsTimerFire(s) /\ H(<<"i">>)
      \/ s.cm /\ s' = ConnMade(s) /\ H(<<"i">>)
      \/ s.lost # "none" /\ s' = ConnLost(s) /\ H(<<"i">>)
      \/ Due(s, "ping") /\ s' = PingFire(s) /\ HK(<<"i", "ping">>) /\ ka' = KATick(PingFire(s))
